@@ -1,7 +1,7 @@
 (* Property C06 - race: the first child seen to resolve wins, immediately, and the rest are cancelled. *)
 From Coq Require Import List Arith Bool.
 Import ListNotations.
-Require Import ScanFull InstsFull Pass C11Groups PassProofs Monitors C02Join C02Merge PassLedger.
+Require Import ScanFull InstsFull Pass C11Groups PassProofs Monitors C02Join C02Merge PassLedger PassNoUnwind.
 
 (* [Pr s fin t] (Proofs/PassProofs.v): not finished - every child poll so far answered something other than Ready and nothing has been
    returned; finished - the child polls are P0 ++ [(i, Ready r)] with nobody resolved in P0 and the single result is r's output:
@@ -32,3 +32,10 @@ Theorem C06_result_predicate_holds scs ops :
   dropped _ w = false -> race_b (strip (tr _ w)) = true.
 Proof. exact (race_b_holds scs ops). Qed.
 Print Assumptions C06_result_predicate_holds.
+
+(* the hypothesis `dropped = false` of the theorems above fails only through a drop or a child's panic: a race over one or more futures never
+   unwinds by itself (an `EEndX` in the history implies that a child's poll panicked).  A race over zero futures panics, as the crate documents. *)
+Theorem C06_race_unwinds_only_on_child_panic scs ops :
+  scs <> [] -> In EEndX (strip (tr _ (race_world scs ops))) -> In (EAns APanic) (strip (tr _ (race_world scs ops))).
+Proof. exact (race_unwinds_only_on_child_panic scs ops). Qed.
+Print Assumptions C06_race_unwinds_only_on_child_panic.
